@@ -66,6 +66,17 @@ func runC10(t *mon.T, raw json.RawMessage) {
 	if storeID {
 		wopts = append(wopts, carv2.StoreIdentityCIDs(true))
 	}
+	if len(ref.Sections) > 0 && len(x)%2 == 0 {
+		// the section limit of the readers, exactly at the longest section of x: wrapping reads x
+		maxSec := uint64(0)
+		for _, s := range ref.Sections {
+			if l := uint64(len(s.Cid.Raw) + len(s.Data)); l > maxSec {
+				maxSec = l
+			}
+		}
+		wopts = append(wopts, carv2.MaxAllowedSectionSize(maxSec))
+		t.Cover("wrap:section-limit-exactly-at-the-longest-section")
+	}
 	checkWrap := func(api string, out []byte) {
 		t.Events(1)
 		want := append(append([]byte{}, refcar.Pragma...), refcar.V2Header{DataOffset: 51, DataSize: uint64(len(x)), IndexOffset: 51 + uint64(len(x))}.Bytes()...)
@@ -103,6 +114,9 @@ func runC10(t *mon.T, raw json.RawMessage) {
 		if len(x)%3 == 0 {
 			wsrc = lab.EOFSeeker{R: bytes.NewReader(x)} // the last bytes come together with io.EOF
 			t.Cover("wrap:source-returns-data+EOF")
+		} else if len(x)%3 == 1 {
+			wsrc = &lab.StutterSeeker{R: bytes.NewReader(x)} // every other Read returns (0, nil)
+			t.Cover("wrap:source-stutters")
 		}
 		if err := carv2.WrapV1(wsrc, &out, wopts...); err != nil {
 			t.Violatef("WrapV1/valid-input/error", "WrapV1 failed: %v", err)
@@ -132,7 +146,11 @@ func runC10(t *mon.T, raw json.RawMessage) {
 	{
 		padded := append(append([]byte{}, x...), make([]byte, 2+r.Intn(70))...)
 		var out bytes.Buffer
-		err := carv2.WrapV1(bytes.NewReader(padded), &out, append(append([]carv2.Option{}, wopts...), carv2.ZeroLengthSectionAsEOF(true))...)
+		var psrc io.ReadSeeker = bytes.NewReader(padded)
+		if len(padded)%2 == 0 {
+			psrc = &lab.StutterSeeker{R: bytes.NewReader(padded)} // a (0, nil) read must not pass for a zero length byte
+		}
+		err := carv2.WrapV1(psrc, &out, append(append([]carv2.Option{}, wopts...), carv2.ZeroLengthSectionAsEOF(true))...)
 		t.Events(1)
 		t.Cover("wrap-null-padded-source")
 		if err != nil {
@@ -248,6 +266,16 @@ func runC10(t *mon.T, raw json.RawMessage) {
 	}
 	cands = append(cands, cand{"nil-roots", nil, true}, cand{"empty-roots", [][]byte{}, false})
 	files := map[string][]byte{"v1": x, "v2-padded": v2variants["padded+index"], "v2-indexless": v2variants["indexless"]}
+	storedHdrLen := map[string]int{}
+	if len(content.Roots) > 0 && !content.NilRoots {
+		// the same payload behind a header that is not in the writer's canonical form (the readers accept
+		// it): what counts is the length of the header that is IN THE FILE
+		for _, hv := range c13LenientHeaders(content.Roots) {
+			h := append(refcar.PutUvarint(nil, uint64(len(hv.body))), hv.body...)
+			files["v1 with "+hv.name] = append(append([]byte{}, h...), x[len(curHeader):]...)
+			storedHdrLen["v1 with "+hv.name] = len(h)
+		}
+	}
 	for fn, orig := range files {
 		for _, c := range cands {
 			valid := true
@@ -266,22 +294,31 @@ func runC10(t *mon.T, raw json.RawMessage) {
 			got := mustRead(p)
 			t.Events(1)
 			key := "ReplaceRootsInFile/" + fn
-			if len(newHeader) == len(curHeader) {
+			inFile := len(curHeader)
+			if l, ok := storedHdrLen[fn]; ok {
+				inFile = l
+				t.Cover("replace-roots:non-canonical-header-in-file")
+			}
+			if len(newHeader) == inFile {
 				t.Cover("replace-roots:same-size")
 				if err != nil {
 					t.Violatef(key+"/same-size/error", "ReplaceRootsInFile(%s) with a header of identical length failed: %v", c.label, err)
 					continue
 				}
-				a, _ := refcar.Decode(orig, false)
 				want := append([]byte{}, orig...)
-				copy(want[a.PayloadOff:], newHeader)
+				if _, lenient := storedHdrLen[fn]; lenient {
+					copy(want, newHeader)
+				} else {
+					a, _ := refcar.Decode(orig, false)
+					copy(want[a.PayloadOff:], newHeader)
+				}
 				if !bytes.Equal(got, want) {
 					t.Violatef(key+"/same-size/bytes-differ", "ReplaceRootsInFile(%s): file differs from the original with the header spliced in, at byte %d", c.label, lab.FirstDiff(got, want))
 				}
 			} else {
 				t.Cover("replace-roots:different-size")
 				if err == nil {
-					t.Violatef(key+"/different-size/accepted", "ReplaceRootsInFile(%s) succeeded although the header length changes from %d to %d", c.label, len(curHeader), len(newHeader))
+					t.Violatef(key+"/different-size/accepted", "ReplaceRootsInFile(%s) succeeded although the header length changes from %d to %d", c.label, inFile, len(newHeader))
 				}
 				if !bytes.Equal(got, orig) {
 					t.Violatef(key+"/different-size/file-modified", "ReplaceRootsInFile(%s) failed (%v) but modified the file at byte %d", c.label, err, lab.FirstDiff(got, orig))
